@@ -71,6 +71,18 @@ CLAIMED["C03"] = {
     "note": "Polynomial time and stack depth are measured, not proved; 'every Unicode string' is represented by the class partition with seeded members; the LR automaton itself is exercised as a black box.",
     "technique": "TLA+ lexer machine progress/error-envelope properties model-checked by TLC; TLC-generated class strings and token soups replayed through every entry mode and start offset under a panic/overflow/hang envelope; growth families",
 }
+CLAIMED["C01"] = {
+    "text": "PyGen.tla defines Python's abstract syntax generatively: PyBuild, a typed stack machine with one action per node constructor (expressions, statements, patterns, parameter lists, type parameters, soft keywords as names), builds every tree of each of ten sub-languages within a node budget (TLC explores the whole construction graph); PyWalk renders each tree with the grammar's need-parentheses relation. Every generated program is parsed by the real parser in Module and Interactive (or Expression) mode and the tree must equal the specification's (kinds, child order, identifiers, operators, contexts, flags, values). Each program is validated against CPython's ast (3.12 for PEP 695) first: a disagreement is a specification bug and is excluded (0 at present). Corpus files are compared with CPython's tree directly.",
+    "design_ref": "DESIGN.md section 6 C01",
+    "note": "Exhaustive within per-sub-language node budgets (quick: strided above 15000 programs per sub-language); one canonical layout here (layouts are C08); the LR tables are exercised as a black box; literal decoding and f-strings are C06/C07.",
+    "technique": "TLA+ generative grammar (typed stack machine + renderer) explored exhaustively by TLC; TLC-generated programs replayed into the parser and compared with the spec tree; CPython cross-validation of the spec",
+}
+CLAIMED["C02"] = {
+    "text": "PyGen.tla brackets the tokens of every range-carrying node with B/E marks (the extent definition per node kind); generated programs are laid out under byte-moving layouts (multi-byte identifiers, CRLF, CR with tabs, BOM, comments and blank lines, missing final newline) and parsed by the all-nodes-with-ranges build; every marked node's range must equal the byte offsets of its marks, and the structural clauses (inside the input, character boundaries, start <= end, children inside parents except decorators, siblings ordered) are evaluated on every generated and corpus tree. CPython's line/column positions converted to byte offsets validate the marks on every program.",
+    "design_ref": "DESIGN.md section 6 C02",
+    "note": "Ranges of f-string pieces and implicit concatenations are covered with C07; nodes that only carry ranges under all-nodes-with-ranges are checked structurally (no reference positions exist for them).",
+    "technique": "TLA+ generative grammar with range marks explored by TLC; TLC-generated programs under several layouts replayed into the parser (ranges vs marks); CPython cross-validation of the marks",
+}
 NOT_YET = {}
 
 def main():
